@@ -78,6 +78,13 @@ Switch(a, out, order) == /\ Live(a) /\ reg[a].key = 1
                          /\ Log([op |-> "switch", a |-> a, out |-> out, order |-> order])
                          /\ UNCHANGED <<wire, wired>>
 
+\* collective refresh (two parties holding the shares of the ciphertext's key, shares aggregated in either order):
+\* the message and the key are unchanged, the level is back at the maximum
+Refresh(a, out, order) == /\ Live(a)
+                          /\ reg' = [reg EXCEPT ![out] = [reg[a] EXCEPT !.lvl = MaxLevel]]
+                          /\ Log([op |-> "refresh", a |-> a, out |-> out, order |-> order])
+                          /\ UNCHANGED <<wire, wired>>
+
 Init == reg = [r \in Regs |-> Null] /\ wire = <<>> /\ wired = [k \in {1, 2} |-> FALSE] /\ hist = <<>>
 Next == /\ Len(hist) < MaxSteps
         /\ \/ \E r \in Regs, v \in Pool, how \in {"sk", "pk"} : Enc(r, v, how)
@@ -87,6 +94,7 @@ Next == /\ Len(hist) < MaxSteps
            \/ \E out \in Regs, chunk \in {1, 7, 4096} : Read(out, chunk)
            \/ \E k \in {1, 2} : WireKeys(k)
            \/ \E a, out \in Regs, order \in {0, 1} : Switch(a, out, order)
+           \/ \E a, out \in Regs, order \in {0, 1} : Refresh(a, out, order)
 Spec == Init /\ [][Next]_vars
 
 TypeOK == \A r \in Regs : reg[r].lvl \in -1..MaxLevel
